@@ -50,6 +50,20 @@ def limits(js, res):
     return out
 
 
+def usage(case, res, p, cs, lim, a, d):
+    """did the strategy leave encouraged steps of the standing period under-used (station power below what station and
+    head room allowed) although the vehicle left short?  'underused' = the plan ignored available encouraged capacity
+    (the catalogued even-plan weakness); 'saturated' = every encouraged step was used fully and the rest had to come
+    from the discouraged steps"""
+    pat = case["pattern"]
+    for i in range(a, min(d, len(pat), len(res["charge"]))):
+        if pat[i]:
+            cap_ = min(cs["max_power"], lim[i]) if lim is not None else cs["max_power"]
+            if res["charge"][i].get(p["cs"], 0) < cap_ - 1e-3:
+                return "underused"
+    return "saturated"
+
+
 def check_case(case):
     """returns (violations [(cls, what)], stats Counter)"""
     st = Counter()
@@ -90,8 +104,9 @@ def check_case(case):
             binding = lim is not None and min(lim[a_:d_] + [cs["max_power"]]) < cs["max_power"] - 1e-9
             cls = ("min-power-sliver" if (minp > 0 and short <= sliver + TOL) else
                    "desired-missed/taper" if taper else
-                   ("desired-missed/headroom/" + ("limit-signal" if min(rating[a_:d_] + [gc_rating]) < gc_rating - 1e-9 else "fixed-load")
-                    + ("/no-slack" if (case["js"]["components"]["vehicles"][p["vid"]].get("_margin") or 1.0) <= 1.0 else "/slack")) if binding
+                   ("desired-missed/headroom/" + ("fixed-load" if js["events"]["fixed_load"] else "limit-signal" if min(rating[a_:d_] + [gc_rating]) < gc_rating - 1e-9 else "rating")
+                    + ("/no-slack" if (case["js"]["components"]["vehicles"][p["vid"]].get("_margin") or 1.0) <= 1.0 else "/slack")
+                    + (("/" + usage(case, res, p, cs, lim, a_, d_)) if strategy in ("peak_load_window", "flex_window", "balanced_market") else "")) if binding
                    else "desired-missed")
             v.append(("C09/%s/%s" % (strategy, cls),
                       "%s leaves at %s with SoC %.6f, desired %.4f, reachable alone at full power %.6f (short by %.6f; one step at minimum power = %.6f); margin %s, departure offset %s min, interval %s, vehicles %d"
@@ -111,6 +126,8 @@ def run(tier):
                 viol, st = check_case(case)
                 for k, c in st.items():
                     dist["%s/%s" % (strategy, k)] += c
+                if not rep.cov["samples"] and st.get("feasible"):
+                    rep.cov["samples"].append({"strategy": strategy, "scenario": svc.finish(case), "stats": dict(st)})
                 for cls, what in viol:
                     rep.add_violation(cls, what, {"unit": "service", "case": case})
         rep.cov["evaluations"] += n * len(svc.STRATS)
